@@ -19,6 +19,7 @@ import (
 	"github.com/indexsupply/shovel/bint"
 	"github.com/indexsupply/shovel/eth"
 	"github.com/indexsupply/shovel/shovel/glf"
+	"github.com/indexsupply/shovel/verifhook"
 	"github.com/indexsupply/shovel/wctx"
 	"github.com/indexsupply/shovel/wpg"
 
@@ -409,7 +410,9 @@ func (f Filter) Accept(ctx context.Context, pgmut *sync.Mutex, pg wpg.Conn, d an
 					f.Ref.Table,
 					f.Ref.Column,
 				)
+				verifhook.Acquire(pgmut, "pgmut", 0, 0)
 				pgmut.Lock()
+				defer verifhook.Release(pgmut)
 				defer pgmut.Unlock()
 				err := pg.QueryRow(ctx, q, v).Scan(&res)
 				switch {
@@ -871,7 +874,9 @@ func (ig Integration) Insert(ctx context.Context, pgmut *sync.Mutex, pg wpg.Conn
 			}
 		}
 	}
+	verifhook.Acquire(pgmut, "pgmut", 0, 0)
 	pgmut.Lock()
+	defer verifhook.Release(pgmut)
 	defer pgmut.Unlock()
 
 	nr, err := pg.CopyFrom(
